@@ -28,7 +28,7 @@ def run(ctx):
     if ctx.thorough:
         ctx.tlc_mc(fam, "Bitmap", "Bitmap_MC_big.cfg", workers=16, timeout=3000, heap="8g")
     # 2. plans out of the spec (real geometry)
-    pdir, plans = ctx.tlc_plans(fam, "Bitmap_Gen", "Bitmap_Gen.cfg", num=ctx.q(70, 800), depth=15,
+    pdir, plans = ctx.tlc_plans(fam, "Bitmap_Gen", "Bitmap_Gen.cfg", num=ctx.q(50, 800), depth=15,
                                 timeout=1500)
     # 3. execute on the real code
     binary = ctx.go_build("c08")
@@ -66,13 +66,21 @@ def run(ctx):
         "iterator calls get a slice with room for min(n, Len) elements after pos (plus 0..2 slack); a negative "
         "length for the list forms is outside the property",
         "values are compared as two's-complement bit patterns of their width (16-bit limbs)",
+        "n beyond +-2^30 is logged clamped (only min(max(n,0),Len) matters), the real 64-bit argument beside it",
+        "late traces (about half): every returned list and every caller slice is kept as returned and rendered "
+        "when the trace is over; a call that does not return within 40 s is logged as a `hang` event and rejected",
+        "concurrent read rounds (also as the first use of the package in 6 fresh processes): values nobody "
+        "writes are shared by 8 goroutines while another one flips the sparse threshold; no mutation is concurrent",
     ]
     return ctx.finish(
         rule="plans = TLC simulation of Bitmap.tla with 64-bit words (universes 64/1024, 3 handles, boundary "
              "indices, patterned fills, n around Len); sweeps = fixed boundary bitmaps + one word of every "
              "popcount + seeded random densities, every width x direction, n in {-1,0,1,Len-1,Len,Len+1,2000,"
              "random}, pos 0..7, add at the width's boundaries, each call under 4 sparse thresholds; histories = "
-             "seeded random mutations/reads over 3 handles with indices from the whole int32 range",
+             "seeded random mutations/reads over 3 handles with indices from the whole int32 range, incl. chains of "
+             "2-3 iterator calls accumulating in one caller slice; 64-bit extremes of n (MaxInt, MaxInt-pos+1, MinInt, "
+             "2^40 ...) at pos 0,1,3,7; threshold extremes (-1, 1, 63, 65, MinInt32, MaxInt32); concurrent read-only "
+             "rounds and cold-start rounds in fresh processes",
         explanation="Bitmap.tla model-checked (property + refinement of the code's algorithm, all sets of 8 "
                     "elements); every reply, the caller's whole slice after each iterator call and the raw-word "
                     "projection of every changed bitmap recorded from the real code must be a step of the spec, "
